@@ -1,6 +1,7 @@
 package cache
 
 import (
+	"context"
 	"reservoir/metrics"
 	"time"
 )
@@ -276,3 +277,40 @@ func stepInterleaved(mem *MemoryCache[vmeta], file *FileCache[vmeta]) {
 
 func HarnessMemStepInterleaved()  { stepInterleaved(newMem(symRange(1, 2), 1<<30), nil) }
 func HarnessFileStepInterleaved() { stepInterleaved(nil, newFile(symRange(1, 2), 1<<30)) }
+
+// HarnessFileRestartNames: "abandonment of a file cache at any point followed by reopening the
+// directory", for cache directory names an operator may well choose - plain ones and ones with
+// characters that mean something to pattern matchers.  After the reopening the directory is
+// empty and the counters are zero; storing and deleting a key the previous life had stored
+// keeps the books right (never negative).
+func HarnessFileRestartNames() {
+	dirs := []string{"var/vcache", "var/v[1]cache", "var/cache[1]", "var/ca*he", "var/c?che", "var/a b"}
+	dir := dirs[symChoice(len(dirs))]
+	n := symRange(0, 2)
+	for i := 0; i < n; i++ {
+		vFSPutFile(dir+"/"+vKeys[i].Hex, "old")
+	}
+	if symChoice(2) == 1 {
+		vFSPutFile(dir+"/stray.tmp", "x")
+	}
+	resetMetrics()
+	c := NewFileCache[vmeta](newCfg(100), dir, 100, time.Hour, 2, context.Background())
+	vDropPending()
+	vReach("reopened")
+	check := func(where string, wantEntries int, wantBytes int64) {
+		vAssert(vFSCount(dir) == wantEntries, "c12.file."+where+".files-without-entry")
+		vAssert(int64(vFSBytes(dir)) == wantBytes, "c12.file."+where+".directory-bytes-differ")
+		vAssert(len(c.entriesMetadata) == wantEntries, "c12.file."+where+".entry-without-file")
+		vAssert(c.byteSize.Get() == wantBytes, "c12.file."+where+".bytesize-differs-from-stored-total")
+		vAssert(metrics.Global.Cache.BytesCached.Get() == wantBytes, "c12.file."+where+".reported-bytes-differ-from-stored-total")
+		vAssert(metrics.Global.Cache.CacheEntries.Get() == int64(wantEntries), "c12.file."+where+".reported-entry-count-differs")
+	}
+	check("restart", 0, 0)
+	vClockFreeze(true)
+	now := time.Now()
+	_, err := c.Cache(vKeys[0], &symReader{data: []byte("n"), failAt: -1}, now.Add(time.Hour), vmeta{Ver: 1})
+	vAssert(err == nil, "c12.file.restart.store-fails-after-reopen")
+	check("restart-store", 1, 1)
+	c.Delete(vKeys[0])
+	check("restart-delete", 0, 0)
+}
